@@ -1050,6 +1050,7 @@ def run(tier, only=None):
             f.write(walktap.case_file(R.rows[k:k + per]))
         files.append(p)
     corr_bad = list(R.meta_disagree)
+    lib.coq_make(["models/DagWalkRun.vo"])   # not in the closure of the property file: build it here
     if os.path.exists(os.path.join(lib.COQ, "models", "DagWalkRun.vo")):
         res = lib.run_case_files(files)
         for i, p in enumerate(files):
